@@ -128,7 +128,10 @@ class Base:
     def fresh_val(self, name, t, st, nullable=False):
         """A fresh unconstrained value of type t (containers get a fresh cell)."""
         if t.is_container:
-            return Cont(st.new_cell(fresh(name, t.sort())), t)
+            c = Cont(st.new_cell(fresh(name, t.sort())), t)
+            if t.kind == 'list':
+                st.assume(t.acc('len')(c.loc.read(st)) >= 0)
+            return c
         if t.kind == 'tuple':
             return TupleV([self.fresh_val(name, a, st) for a in t.args])
         if t.kind == 'none':
